@@ -306,6 +306,31 @@ func init() {
 		}
 	}
 	seed := func(w *SWorld) { must(w.A[0].Set("d", 5, nil, []byte(`{"v":0}`))) }
+	// the sweep against a client that rewrites the very document that is due: whichever comes first, a
+	// write that was acknowledged after the deadline leaves a live document (the sweep is "delete if due")
+	rewrite := func(name string, op SOp) {
+		variants(Scenario{Name: name, Prop: []string{"C14"}, Keys: []string{"d"}, Setup: seed, Threads: [][]SOp{{advance(6)}, {op}},
+			Check: func(w *SWorld, ops []OpRec, final string) []Violation {
+				acked := false
+				for _, o := range ops {
+					if o.Name == op.Name && o.Out == "" {
+						acked = true
+					}
+				}
+				vrt.Quiesce()
+				d, err := rosmar.VerifDumpAll(w.H[0])
+				if err != nil || !acked {
+					return nil
+				}
+				if r := rowsOf(d)["sc.A/d"]; r == nil || !r.HasValue {
+					return []Violation{{Prop: "C14", Op: name, Pre: "sched", Field: "swept-after-rewrite", Detail: fmt.Sprintf("%s was acknowledged while the expiry sweep was running, yet the document ended up deleted by the sweep: %s", op.Name, final)}}
+				}
+				return nil
+			}}, 1, 2)
+	}
+	rewrite("E-sweep-vs-rewrite-noexp", setExp("d", 0))
+	rewrite("E-sweep-vs-rewrite-later", setExp("d", 3600))
+	rewrite("E-sweep-vs-touch-later", touch("d", 3600))
 	for _, sc := range []struct {
 		name    string
 		setup   func(w *SWorld)
@@ -319,4 +344,39 @@ func init() {
 	} {
 		variants(Scenario{Name: sc.name, Prop: []string{"C14"}, Keys: []string{"k", "j", "t", "d"}, Setup: sc.setup, Threads: sc.threads, Check: check(sc.name)}, 1, 2)
 	}
+}
+
+// ---- retry loops whose callback answers differently per version: nothing of a refused attempt may leak
+// into the attempt that is stored (expiry asked for only when shown version "a") ----------------------
+
+func init() {
+	setB := SOp{Name: "Set k b", Do: func(w *SWorld, st *TState) (string, []uint64) {
+		return ec(w.C(st.T).Set("k", 0, nil, []byte(`{"v":"b"}`))), nil
+	}}
+	update := SOp{Name: "Update k (expiry only for version a)", Do: func(w *SWorld, st *TState) (string, []uint64) {
+		var shown []string
+		_, err := w.C(st.T).Update("k", 0, func(cur []byte) ([]byte, *uint32, bool, error) {
+			shown = append(shown, string(cur))
+			if strings.Contains(string(cur), `"a"`) {
+				e := uint32(100)
+				return []byte(`{"v":"ua"}`), &e, false, nil
+			}
+			return []byte(`{"v":"ub"}`), nil, false, nil
+		})
+		return fmt.Sprintf("%s last shown=%q", ec(err), shown[len(shown)-1]), nil
+	}}
+	wux := SOp{Name: "WriteUpdateWithXattrs k (expiry only for version a)", Do: func(w *SWorld, st *TState) (string, []uint64) {
+		var last string
+		_, err := w.C(st.T).WriteUpdateWithXattrs(ctx, "k", []string{"_s"}, 0, nil, &sgbucket.MutateInOptions{}, func(doc []byte, x map[string][]byte, cas uint64) (sgbucket.UpdatedDoc, error) {
+			last = string(doc)
+			if strings.Contains(string(doc), `"a"`) {
+				e := uint32(100)
+				return sgbucket.UpdatedDoc{Doc: []byte(`{"v":"wa"}`), Xattrs: map[string][]byte{"_s": []byte(`{"n":1}`)}, Expiry: &e}, nil
+			}
+			return sgbucket.UpdatedDoc{Doc: []byte(`{"v":"wb"}`), Xattrs: map[string][]byte{"_s": []byte(`{"n":2}`)}}, nil
+		})
+		return fmt.Sprintf("%s last shown=%q", ec(err), last), nil
+	}}
+	variants(Scenario{Name: "S12-update-exp-per-version", Prop: []string{"C03"}, Lin: true, Setup: setupSet("k", `{"v":"a"}`), Threads: [][]SOp{{update}, {setB}}}, 1, 2)
+	variants(Scenario{Name: "S12-wux-exp-per-version", Prop: []string{"C03", "C07"}, Lin: true, Setup: setupSet("k", `{"v":"a"}`), Threads: [][]SOp{{wux}, {setB}}}, 1, 2)
 }
